@@ -127,6 +127,61 @@ C18_OPS = [k for k in EXTRA if k.split(".")[1] in APPROX]
 C16_OPS = [k for k in EXTRA if k not in C18_OPS]
 
 
+# operand FORMS of the operators, added for C17 (harness/src/ops/extra2.rs, lean/Cgm/Driver/OpsExtra2.lean; generated
+# from THIS table by tools/gen_c17_forms.py).  `<t>.<op>.<form>`: `rv` = `&a op b`, `vr` = `a op &b`, `rr` = `&a op &b`,
+# `asg` = `a op= b` (returns the updated `a`), `r` = `-&a`.  Only the forms the crate implements (inventory/ops_impls.txt):
+# no reference form of a scalar operand, no `*=` for m*m / q*q / m*v / q*v, no `p -= p`, no `a /= a`, no `-&v` for vectors.
+# (types, by-value op, signature with T = the type, V = its vector type, forms)
+_BIN, _BINA, _SCA, _NEG = ("rv", "vr", "rr"), ("rv", "vr", "rr", "asg"), ("rv", "asg"), ("r",)
+FORM_FAMILIES = [
+    (("v1", "v2", "v3", "v4"), "add", "T T", _BINA), (("v1", "v2", "v3", "v4"), "sub", "T T", _BINA),
+    (("v1", "v2", "v3", "v4"), "mul", "T x", _SCA), (("v1", "v2", "v3", "v4"), "div", "T x", _SCA),
+    (("v1", "v2", "v3", "v4"), "rem", "T x", _SCA),
+    (("m2", "m3", "m4"), "add", "T T", _BINA), (("m2", "m3", "m4"), "sub", "T T", _BINA),
+    (("m2", "m3", "m4"), "mul_s", "T x", _SCA), (("m2", "m3", "m4"), "div_s", "T x", _SCA),
+    (("m2", "m3", "m4"), "rem_s", "T x", _SCA), (("m2", "m3", "m4"), "mul", "T T", _BIN),
+    (("m2", "m3", "m4"), "mul_v", "T V", _BIN), (("m2", "m3", "m4"), "neg", "T", _NEG),
+    (("q",), "add", "T T", _BINA), (("q",), "sub", "T T", _BINA), (("q",), "mul_s", "T x", _SCA),
+    (("q",), "div_s", "T x", _SCA), (("q",), "rem_s", "T x", _SCA), (("q",), "mul", "T T", _BIN),
+    (("q",), "mul_v", "T V", _BIN), (("q",), "neg", "T", _NEG),
+    (("p1", "p2", "p3"), "add_v", "T V", _BINA), (("p1", "p2", "p3"), "sub_v", "T V", _BINA),
+    (("p1", "p2", "p3"), "sub_p", "T T", _BIN), (("p1", "p2", "p3"), "mul", "T x", _SCA),
+    (("p1", "p2", "p3"), "div", "T x", _SCA), (("p1", "p2", "p3"), "rem", "T x", _SCA),
+    (("rad", "deg"), "add", "T T", _BINA), (("rad", "deg"), "sub", "T T", _BINA), (("rad", "deg"), "rem", "T T", _BINA),
+    (("rad", "deg"), "mul_s", "T x", _SCA), (("rad", "deg"), "div_s", "T x", _SCA), (("rad", "deg"), "div_a", "T T", _BIN),
+    (("rad", "deg"), "neg", "T", _NEG),
+]
+FORM_KIND = dict(APPROX_TYPES)     # type -> kind token
+FORM_VEC = {"m2": "V2", "m3": "V3", "m4": "V4", "q": "V3", "p1": "V1", "p2": "V2", "p3": "V3"}
+
+
+def form_ops():
+    """[(name, type, by-value op, form, signature)]"""
+    out = []
+    for tys, op, sg, forms in FORM_FAMILIES:
+        for ty in tys:
+            sig = [FORM_KIND[ty] if k == "T" else FORM_VEC[ty] if k == "V" else k for k in sg.split()]
+            for f in forms:
+                out.append((f"{ty}.{op}.{f}", ty, op, f, sig))
+    return out
+
+
+FORMS = form_ops()
+# `Sum<&'a MatrixN>` (`iter().sum()`) and `Product<&'a Basis2>` (`iter().product()`): the by-reference iterator impls that had no op
+FOLD_REF_OPS = {"m2.sum_list_ref": ["M2*"], "m3.sum_list_ref": ["M3*"], "m4.sum_list_ref": ["M4*"], "b2.product_list_ref": ["x*"]}
+EXTRA2 = {name: sig for name, _, _, _, sig in FORMS}
+EXTRA2.update(FOLD_REF_OPS)
+C17_FORM_OPS = list(EXTRA2)
+
+
+# C18, further types (harness/src/ops/extra3.rs, lean/Cgm/Driver/OpsExtra3.lean): the approx relations of `Euler<Rad>` (three
+# angles), `Decomposed<Vector3, Quaternion>` (scale, rotation `s x y z`, displacement), `Basis2` (given as an angle, built with
+# `from_angle`) and `Basis3` (given as a quaternion, built with `from_quaternion`); op names as in APPROX
+APPROX_TYPES3 = {"euler": "x x x", "dq": "x Q V3", "b2": "x", "b3": "Q"}
+EXTRA3 = {f"{ty}.{op}": sg.replace("T", k).split() for ty, k in APPROX_TYPES3.items() for op, sg in APPROX.items()}
+C18_OPS3 = list(EXTRA3)
+
+
 def build():
     sig = {}
     for n in (1, 2, 3, 4):
@@ -156,6 +211,8 @@ def build():
     for k, v in PROJ.items():
         sig[k] = v.split()
     sig.update(EXTRA)
+    sig.update(EXTRA2)
+    sig.update(EXTRA3)
     return sig
 
 
